@@ -2,7 +2,7 @@
 # Evaluates seeded changes in a scratch copy of /verif and a scratch worktree of /repo (outside /repo and /verif), so
 # that development in /verif can continue meanwhile.  usage: lib/scratch_eval.sh <eval_seeded args...>
 set -e
-S=/tmp/ev
+S=${SCRATCH:-/tmp/ev}
 rm -rf $S/verif
 mkdir -p $S
 if [ ! -d $S/repo ]; then git -C /repo worktree add -q --detach $S/repo HEAD; else git -C $S/repo checkout -q --detach $(git -C /repo rev-parse HEAD); git -C $S/repo checkout -q -- .; fi
